@@ -75,6 +75,9 @@ CONF = {
     'C': _neighbor(N2, ['10.0.0.0/24 next-hop 3.3.3.3 med 10', '10.0.7.0/24 next-hop 1.1.1.1'], hold=90)
          + _neighbor(N3, ['10.1.0.0/24 next-hop 1.1.1.1']),
 }
+# D: the second neighbor leaves the configuration.  (Coming back to A or B re-adds it: a new Peer, a new session, and only
+# the routes of that file - whatever an earlier incarnation of the neighbor had in its Adj-RIB-Out.)
+CONF['D'] = _neighbor(N2, ['10.0.0.0/24 next-hop 1.1.1.1 med 10', '10.0.5.0/24 next-hop 1.1.1.1'])
 API_ROUTE = 'route 10.7.0.0/24 next-hop 1.1.1.1 med 77'   # a prefix no configuration uses
 
 
@@ -90,7 +93,7 @@ def depths(lines):
     return d
 
 
-FAULT_KINDS = ('unknown-keyword', 'bad-value', 'cut-short', 'missing-mandatory', 'duplicate-neighbor')
+FAULT_KINDS = ('unknown-keyword', 'bad-value', 'cut-short', 'missing-mandatory', 'duplicate-neighbor', 'semantic')
 
 
 def faulty(lines, kind, j):
@@ -109,6 +112,12 @@ def faulty(lines, kind, j):
     if kind == 'missing-mandatory':
         if j < len(lines) and lines[j].strip().startswith('peer-as'):
             return lines[:j] + lines[j + 1:]
+        return None
+    if kind == 'semantic':
+        # the file parses; it names an API process nobody defines (Configuration.validate()).  Whether such a file is
+        # refused is ExaBGP's choice - but a reload it reports as failed must not have been applied
+        if j < len(lines) and lines[j].strip() == 'static {':
+            return lines[:j] + [' api {', '  processes [ nosuch ];', ' }'] + lines[j:]
         return None
     if kind == 'duplicate-neighbor':
         if j == len(lines):
@@ -131,7 +140,15 @@ REMOVED = []
 def mk_peer(neighbor, reactor=None):
     from checks.c17 import mk_peer as _mk
     p = _mk(neighbor, True)
-    p.remove = lambda: REMOVED.append(p)     # Peer.remove needs the whole reactor; removal of a neighbor is outside the claim
+    p.stats = {}
+
+    def remove():
+        # Peer.remove() = _stop() (closes the transport: none here) + the REAL Peer.stop(): timers, FSM to IDLE and
+        # neighbor.rib.uncache().  The reactor's main loop then deletes the finished peer (World.after_good_reload).
+        from exabgp.reactor.peer.peer import Peer
+        Peer.stop(p)
+        REMOVED.append(p)
+    p.remove = remove
     return p
 
 
@@ -176,6 +193,11 @@ class World:
     def after_good_reload(self, name):
         """what the peers' coroutines do next with what Reactor.reload handed them"""
         from checks.c17 import main_loop_top, main_session_start, session_lost
+        for key in [k for k, p in self.reactor._peers.items() if p in REMOVED]:
+            # Reactor._async_main_loop: "Remove completed peers" - the session of a neighbor which left the configuration ends
+            del self.reactor._peers[key]
+            for table in (self.tables, self.senders, self.ghost, self.api_live):
+                table.pop(key, None)
         for key, peer in self.reactor._peers.items():
             if key not in self.tables:
                 self.tables[key] = PeerTable()
@@ -348,6 +370,10 @@ def h_fault_text(ctx, keep, new_name):
     w.set_source(bad)
     r = w.reload()
     info = {'kind': kind, 'before-line': j, 'text': text_of(bad), 'error': str(w.cfg.error)[:200]}
+    if kind == 'semantic' and r is True:
+        ctx.cover('refused:semantic')   # accepted: then it is a successful reload of that file, nothing to hold it to here
+        ctx.cover('semantic-accepted')
+        return ['accepted', kind, j]
     if kind == 'cut-short' and r is True:
         # ExaBGP accepts some truncated files (an unterminated block is dropped silently): then this was a successful
         # reload of another configuration, which the property does not forbid; nothing to check on this path
@@ -469,23 +495,23 @@ def h_fault_file(ctx, keep, new_name):
     return ['refused', how]
 
 
-STEPS = ('api-announce', 'api-withdraw', 'reload-A', 'reload-B', 'reload-C', 'reload-bad-early', 'reload-bad-late', 'reload-crash')
+STEPS = ('api-announce', 'api-withdraw', 'reload-A', 'reload-B', 'reload-C', 'reload-D', 'reload-bad-early', 'reload-bad-late', 'reload-crash')
 
 
 @guarded
-def h_seq(ctx, keep, n):
+def h_seq(ctx, keep, n, prefix=()):
     w = start(ctx)
     keep.append(w)
     trail = []
     for s in range(n):
-        step = ctx.pick('step%d' % s, STEPS)
+        step = prefix[s] if s < len(prefix) else ctx.pick('step%d' % s, STEPS)
         trail.append(step)
         info = {'history': list(trail)}
         if step == 'api-announce':
             w.api_command('announce')
         elif step == 'api-withdraw':
             w.api_command('withdraw')
-        elif step in ('reload-A', 'reload-B', 'reload-C'):
+        elif step in ('reload-A', 'reload-B', 'reload-C', 'reload-D'):
             name = step[-1]
             w.set_source(CONF[name])
             r = w.reload()
@@ -542,6 +568,8 @@ def units(tier):
     us.append(Unit('fault/file', lambda ctx: h_fault_file(ctx, 'B'),
                    must_cover=('refused:removed', 'refused:directory', 'refused:dangling-symlink'), weight=5))
     us.append(Unit('seq/2', lambda ctx: h_seq(ctx, 2), must_cover=('good-reload', 'failed-reload'), weight=40, max_seconds=900))
+    # a neighbor which is reconfigured, leaves the configuration and comes back: what its earlier incarnation held is gone
+    us.append(Unit('seq/leave-and-return', lambda ctx: h_seq(ctx, 3, prefix=('reload-B', 'reload-D')), must_cover=('good-reload',), weight=30, max_seconds=900))
     if th:
         us.append(Unit('seq/3', lambda ctx: h_seq(ctx, 3), must_cover=('good-reload', 'failed-reload'), weight=300, max_seconds=1500,
                        max_paths=100000))
